@@ -373,7 +373,8 @@ func c07Codecs(h *c07T, v *c07Vec, lr int, real []int, data []byte) {
 			if err == nil {
 				h.check(cl.name, v, lr, real, "accepted", len(b), bytes.Equal(b, data), false, "")
 			} else {
-				h.check(cl.name, v, lr, real, "rejected", len(b), false, errors.Is(err, ErrBodyTooLarge), "error "+err.Error())
+				// a stream that lies about its size may also be reported as corrupt
+				h.check(cl.name, v, lr, real, "rejected", len(b), false, errors.Is(err, ErrBodyTooLarge) || v.Claim != "true", "error "+err.Error())
 			}
 		}
 		// gzip-encoded multipart/form-data through MultipartFormWithLimit
@@ -412,7 +413,7 @@ func c07Codecs(h *c07T, v *c07Vec, lr int, real []int, data []byte) {
 				}
 				h.check("MultipartFormWithLimit/gzip", v, lr, real, "accepted", n, got == string(val), false, "")
 			} else {
-				h.check("MultipartFormWithLimit/gzip", v, lr, real, "rejected", 0, false, errors.Is(err, ErrBodyTooLarge), "error "+err.Error())
+				h.check("MultipartFormWithLimit/gzip", v, lr, real, "rejected", 0, false, errors.Is(err, ErrBodyTooLarge) || v.Claim != "true", "error "+err.Error())
 			}
 		}
 	}
@@ -455,7 +456,9 @@ func TestVerifC07BodyLimit(t *testing.T) {
 				ls = []int{headLimits[rng.Intn(len(headLimits))]}
 			}
 		} else {
-			if quick {
+			if quick && (v.Precap != "fresh" || v.Claim != "true") {
+				ls = []int{limits[rng.Intn(7)]}
+			} else if quick {
 				ls = []int{limits[rng.Intn(3)], limits[3+rng.Intn(4)]}
 				if len(v.Pieces) <= 1 && rng.Intn(8) == 0 {
 					ls = append(ls, 1<<20)
@@ -774,6 +777,41 @@ func TestVerifC07BodyLimit(t *testing.T) {
 				b, err := req.BodyUncompressedWithLimit(lr)
 				return len(b), err
 			})
+		}
+		// concatenated streams (gzip members, zstd frames) and a gzip size trailer that lies:
+		// the big part first, the big part last, and the bomb claiming to be empty
+		if cd.ce == "gzip" || cd.ce == "zstd" {
+			small := cd.enc(nil, []byte("ok"))
+			variants := map[string][]byte{
+				"bomb-then-small-member": append(append([]byte(nil), comp...), small...),
+				"small-member-then-bomb": append(append([]byte(nil), small...), comp...),
+			}
+			if cd.ce == "gzip" {
+				lie := append([]byte(nil), comp...)
+				binary.LittleEndian.PutUint32(lie[len(lie)-4:], 0)
+				variants["bomb-claiming-size-0"] = lie
+				lie2 := append(append([]byte(nil), comp...), small...)
+				variants["bomb-then-small-member"] = lie2 // its last trailer truthfully says 2 bytes
+			}
+			for vn, vc := range variants {
+				for _, lr := range []int{1000, 1 << 20} {
+					lr, cd, vc := lr, cd, vc
+					var resp Response
+					resp.SetBody(vc)
+					resp.Header.SetContentEncoding(cd.ce)
+					bomb("Response.Body"+cd.name+"WithLimit/"+vn, lr, func() (int, error) {
+						b, err := cd.dec(&resp, lr)
+						return len(b), err
+					})
+					var req Request
+					req.SetBody(vc)
+					req.Header.SetContentEncoding(cd.ce)
+					bomb("Request.BodyUncompressedWithLimit/"+vn+"-"+cd.ce, lr, func() (int, error) {
+						b, err := req.BodyUncompressedWithLimit(lr)
+						return len(b), err
+					})
+				}
+			}
 		}
 	}
 	zeros = nil
